@@ -606,10 +606,10 @@ theorem constants_match_source :
       TypedLoad.page g c kids n = TypedLoad.pageLimited g c Generated.pageTreeDepth kids n) ∧
     (Generated.colorSpaceDepth = 5) := by
   refine ⟨?_, ?_, ?_, ?_, ?_⟩
-  · decide +kernel
-  · decide +kernel
-  · intros; rfl
-  · intros; rfl
-  · decide +kernel
+  · first | decide +kernel | fail "constants_match_source (C14): the model's TypedLoad.maxNest does not match the source (Generated.maxNestedGets, re-extracted from pdf/src)"
+  · first | decide +kernel | fail "constants_match_source (C14): the model's TypedLoad.maxTreeDepth does not match the source (Generated.maxTreeDepth, re-extracted from pdf/src)"
+  · first | (intros; rfl) | fail "constants_match_source (C14): the model's TypedLoad.Stored, TypedLoad.resolve, TypedLoad.resolveFlags does not match the source (Generated.resolveDepth, re-extracted from pdf/src)"
+  · first | (intros; rfl) | fail "constants_match_source (C14): the model's TypedLoad.PNode, TypedLoad.page, TypedLoad.pageLimited does not match the source (Generated.pageTreeDepth, re-extracted from pdf/src)"
+  · first | decide +kernel | fail "constants_match_source (C14): the model's statement does not match the source (Generated.colorSpaceDepth, re-extracted from pdf/src)"
 
 end C14
